@@ -29,19 +29,6 @@ Proof. intros r s. apply rprefix_correct. Qed.
 Theorem osc10_language_compiled : forall ts a, lang (compile ts) a <-> osc_lang ts a.
 Proof. exact compile_correct. Qed.
 
-(* from the pattern TEXT to the OSC 1.0 language: for patterns made of literals, '?' and '*' the
-   matching function (rewrite, then the regex parser, then derivatives) answers yes exactly on the
-   OSC 1.0 language of the pattern.
-   (Kept from the first round; superseded by osc10_pattern_text_correct below, which covers the whole
-   pattern alphabet.) *)
-Theorem osc10_pattern_text_correct_partial : forall ts a, forallb flat_tok ts = true ->
-  (osc_rematch (render ts) a = MTrue <-> osc_lang ts a).
-Proof. exact flat_pattern_correct. Qed.
-Example flat_pattern_nonvacuous :
-  forallb flat_tok [OLit 47; OLit 97; OStar; OAny] = true /\ render [OLit 47; OLit 97; OStar; OAny] = [47; 97; 42; 63]
-  /\ osc_rematch [47; 97; 42; 63] [47; 97; 98; 99] = MTrue.
-Proof. repeat split; vm_compute; reflexivity. Qed.
-
 (* THE FULL STATEMENT, for the whole pattern alphabet.  `pat_text ts p` (model/OscMatch.v) says that
    p is a well-formed OSC 1.0 address pattern text -- literals, '?', '*', classes [abc] with ranges
    [a-c], negation [!..] and an optional meaningless '-' before the ']', alternatives {a,b} -- and
@@ -65,6 +52,9 @@ Theorem osc10_match_is_partwise : forall ts p a, pat_text ts p -> osc_rematch p 
 Proof.
   intros ts p a H Hm. apply osc_lang_same_parts; [eapply pat_text_ok; eassumption | apply (pat_text_correct ts p a H); assumption].
 Qed.
+Example flat_pattern_instance :     (* "/a*?" : literals, '*', '?' alone are an instance of the full theorem *)
+  pat_text [OLit 47; OLit 97; OStar; OAny] [47; 97; 42; 63] /\ osc_rematch [47; 97; 42; 63] [47; 97; 98; 99] = MTrue.
+Proof. split; [apply (render_pat_text [OLit 47; OLit 97; OStar; OAny]); reflexivity | vm_compute; reflexivity]. Qed.
 Example pat_text_test_pattern :    (* "/m?t{ch,Ch}[a-z]n[!a-f]_*" of tests/test_oscfunc.py *)
   let ts := [OLit 47; OLit 109; OAny; OLit 116; OAlt [[99;104]; [67;104]]; OClass false [(97, 122)]; OLit 110;
              OClass true [(97, 102)]; OLit 95; OStar] in
@@ -195,6 +185,27 @@ Theorem dispatch_matching_by_path_partial : forall h m t src port,
 Proof.
   intros h m t src port st. pose proof (Inv_final h) as HI. fold st in HI.
   split; [apply match_ids; assumption | apply (inv_keys st HI true)].
+Qed.
+
+(* ONE registration order, as the property words it, holds in the matching dispatcher whenever at most
+   one registered path is matched by the message address (distinct responders' paths selected by a
+   pattern one at a time, or all matched responders sharing a path): then the invocations are exactly
+   filter fires_m over the registration order.  With several matched paths the order is by path first
+   (dispatch_matching_by_path_partial; matching_global_order_refuted is the counterexample). *)
+Theorem dispatch_matching_single_path_order : forall h m t src port k0,
+  let st := final h in
+  (forall k, In k (keys (act_match st)) -> matches m k = true -> k = k0) ->
+  map i_id (snd (dispatch_match_d st m t src port)) = filter (fires_m st m src port) (cmdp st).
+Proof. intros h m t src port k0 st H. apply (match_single_path st m t src port k0 (Inv_final h) H). Qed.
+Example single_path_example :      (* matching responders /a (0), /b (1), /a (2, re-enabled last); "/a" matches one path: 2 then ... *)
+  let h := [OpCreate [47;97] true None None None 0%nat; OpCreate [47;98] true None None None 1%nat;
+            OpCreate [47;97] true None None None 2%nat; OpDisable 0%nat; OpEnable 0%nat] in
+  let m := {| m_addr := [47;97]; m_args := [] |} in
+  (forall k, In k (keys (act_match (final h))) -> matches m k = true -> k = [47;97])
+  /\ map i_id (snd (dispatch_match_d (final h) m TNow (1, 2) 3)) = [2; 0]%nat /\ cmdp (final h) = [1; 2; 0]%nat.
+Proof.
+  split; [|split; vm_compute; reflexivity].
+  intros k Hk Hm. vm_compute in Hk. destruct Hk as [<- | [<- | []]]; [reflexivity | vm_compute in Hm; discriminate].
 Qed.
 
 (* ... and, order aside, the matching dispatcher invokes exactly the enabled matching responders whose
@@ -425,7 +436,6 @@ Proof. vm_compute. reflexivity. Qed.
 
 Print Assumptions deriv_match_correct.
 Print Assumptions match_whole_length.
-Print Assumptions osc10_pattern_text_correct_partial.
 Print Assumptions osc10_pattern_text_correct.
 Print Assumptions illformed_pattern_is_re_error.
 Print Assumptions incoming_message_fires_exactly.
@@ -435,5 +445,6 @@ Print Assumptions raising_model_agrees.
 Print Assumptions parse_total.
 Print Assumptions dispatch_exact.
 Print Assumptions dispatch_matching_exactly_once.
+Print Assumptions dispatch_matching_single_path_order.
 Print Assumptions invoked_function_is_current.
 Print Assumptions registry_runs_current_in_order.
